@@ -766,6 +766,8 @@ def gen_c13_small(rng):
                 '{"method": "%s", "params": ["%s"], "id": "%s"}' % (m, tok, tok),
                 '{"jsonrpc": "2.0", "method": "%s", "params": ["%s"], "id": "%s"}' % (m, tok, tok),
                 '{"jsonrpc": %s, "method": "%s", "params": ["%s"], "id": "%s"}' % (rng.choice(["null", '""', "0", "false", "2", '"1.0"']), m, tok, tok),
+                # a valid request whose id is a bean of a side-effect-free class: it cannot be echoed as JSON
+                '{"method": "%s", "params": ["%s"], "id": {"__jsonclass__": ["decimal.Decimal", ["1.5"]]}}' % (m, tok),
             ])])
         clients.append({"version": None, "history": False, "ops": ops})
     prog = {"server": sv, "net": {"seg": "whole", "delay": 0}, "methods": methods, "clients": clients, "lifecycle": "serve",
